@@ -271,7 +271,11 @@ func (s *Session) preamble() string {
 		sb.WriteString("(assert (= (unixnano 0 0) (- 6795364578871345152)))\n")
 	}
 	// string literal lengths
+	if s.declared["strcat"] && s.declared["strdrop"] && s.declared["strlen"] {
+		sb.WriteString("(assert (forall ((x Int) (y Int)) (! (and (= (strlen (strcat x y)) (+ (strlen x) (strlen y))) (= (strdrop (strcat x y) (strlen x)) y)) :pattern ((strcat x y)))))\n")
+	}
 	if s.declared["strlen"] {
+		sb.WriteString("(assert (forall ((x Int)) (! (>= (strlen x) 0) :pattern ((strlen x)))))\n")
 		ids := make([]int, 0, len(s.strList))
 		for i := range s.strList {
 			ids = append(ids, i)
